@@ -273,7 +273,11 @@ def fn_refs(F, pred):
         called = set()
         for e in th["exprs"]:
             if e["k"] == "Call" and "fn" in e:
-                called.add(e["fun"])
+                f = e["fun"]
+                called.add(f)
+                while th["exprs"][f]["k"] in ("Scope", "Use"):
+                    f = th["exprs"][f].get("value", th["exprs"][f].get("source"))
+                    called.add(f)
         for i, e in enumerate(th["exprs"]):
             fn = e.get("fn")
             if not fn:
